@@ -1,5 +1,7 @@
 /-
-C30 — lemmas about the connection layer (core Lean only).
+C30 — lemmas about the connection layer (core Lean only).  The proofs unfold the regenerated
+step lists of `Conn.init` (`Facts.C30.connInitRegular`, `connInitCDN`): if the readiness signal
+moves in front of the assignment of `c.cfg`, `micro_ok` stops compiling.
 -/
 import TdModel.Model.C30Mgr
 import TdModel.Lemmas.C30Interp
@@ -19,53 +21,237 @@ theorem mrun_eq (acts : List MAct) : ∀ (s : St) (cs : List MConn),
     simp only [mrun, deliveries, runI_append]
     exact ih _ _
 
-/-- Whatever an action hands to the client handler carries the config of the connection that
-buffered it, and the handler kind of that connection's mode. -/
-theorem mstep_delivery (cs : List MConn) (a : MAct) (n : Notif) (hn : n ∈ (mstep cs a).2) :
-    ∃ id c, cs[id]? = some c ∧ n.kind = (if c.cdn then .cdn else .regular) ∧
-      ((∃ e, a = .ev id e ∧ c.cfg = some n.cfgDC) ∨
-       (∃ sd, a = .init id sd ∧ n.cfgDC = (if c.cdn then c.dc else sd))) ∧
-      ∃ e, (e ∈ c.pending ∨ a = .ev id e) ∧ n.key = e.key ∧ n.permKey = e.perm ∧ n.salt = e.salt := by
-  cases a with
-  | new cdn dc => simp [mstep] at hn
-  | ev id e =>
-    simp only [mstep] at hn
-    cases hc : cs[id]? with
-    | none => simp [hc] at hn
-    | some c =>
-      simp only [hc] at hn
-      cases hcfg : c.cfg with
-      | none => simp [hcfg] at hn
-      | some d =>
-        simp only [hcfg, List.mem_map, List.mem_append, List.mem_singleton] at hn
-        obtain ⟨e', he', rfl⟩ := hn
-        refine ⟨id, c, hc, by simp [notifOf], Or.inl ⟨e, rfl, by simp [notifOf, hcfg]⟩, e', ?_, rfl, rfl, rfl⟩
-        rcases he' with h | h
-        · exact Or.inl h
-        · exact Or.inr (by rw [h])
-  | init id sd =>
-    simp only [mstep] at hn
-    cases hc : cs[id]? with
-    | none => simp [hc] at hn
-    | some c =>
-      simp only [hc, List.mem_map] at hn
-      obtain ⟨e', he', rfl⟩ := hn
-      exact ⟨id, c, hc, by simp [notifOf], Or.inr ⟨sd, rfl, by simp [notifOf]⟩, e', Or.inl he', rfl, rfl, rfl⟩
+/-- Readiness is never signalled before `c.cfg` holds the connection's own config. -/
+def ConnOK (c : MConn) : Prop :=
+  if c.cdn then (c.ipc ≤ 1 → c.ready = false) ∧ (1 ≤ c.ipc → c.cfg = c.dc)
+  else (c.ipc ≤ 3 → c.ready = false) ∧ (3 ≤ c.ipc → c.cfg = c.serverDC)
 
-/-- Before its config is known a connection delivers nothing. -/
-theorem mstep_buffers (cs : List MConn) (id : Nat) (c : MConn) (e : SessEv) (hc : cs[id]? = some c)
-    (hcfg : c.cfg = none) :
-    (mstep cs (.ev id e)).2 = [] ∧ (mstep cs (.ev id e)).1[id]? = some { c with pending := c.pending ++ [e] } := by
+theorem ConnOK.ready_cfg {c : MConn} (h : ConnOK c) (hr : c.ready = true) : c.cfg = c.ownDC := by
+  unfold ConnOK at h
+  unfold MConn.ownDC
+  cases hc : c.cdn with
+  | true =>
+    simp only [hc, if_true] at h ⊢
+    by_cases h1 : c.ipc ≤ 1
+    · rw [h.1 h1] at hr; cases hr
+    · exact h.2 (by omega)
+  | false =>
+    simp only [hc, Bool.false_eq_true, if_false] at h ⊢
+    by_cases h1 : c.ipc ≤ 3
+    · rw [h.1 h1] at hr; cases hr
+    · exact h.2 (by omega)
+
+/-- A delivered notification pairs a session with connection `c`'s own config and handler. -/
+def Good (c : MConn) (n : Notif) : Prop :=
+  n.cfgDC = c.ownDC ∧ n.kind = (if c.cdn then .cdn else .regular) ∧ n.fault = .none ∧
+    ∃ e : SessEv, n.key = e.key ∧ n.permKey = e.perm ∧ n.salt = e.salt
+
+/-- Same connection (mode, dialled DC, server). -/
+def SameConn (c c' : MConn) : Prop := c'.cdn = c.cdn ∧ c'.dc = c.dc ∧ c'.serverDC = c.serverDC
+
+theorem Good.of_same {c c' : MConn} {n : Notif} (hs : SameConn c c') (h : Good c' n) : Good c n := by
+  obtain ⟨h1, h2, h3⟩ := hs
+  unfold Good MConn.ownDC at *
+  rw [h1, h2, h3] at h
+  exact h
+
+theorem flush_good (c : MConn) (hc : c.cfg = c.ownDC) : ∀ n ∈ (flushConn c).2, Good c n := by
+  intro n hn
+  simp only [flushConn, List.mem_map] at hn
+  obtain ⟨e, _, rfl⟩ := hn
+  exact ⟨by simp [notifOf, hc], by simp [notifOf], rfl, e, rfl, rfl, rfl⟩
+
+/-- One classified statement of `init`, at its position in the regenerated list. -/
+theorem micro_ok (c : MConn) (tag : String) (h : ConnOK c) (ht : (initProg c.cdn)[c.ipc]? = some tag) :
+    ConnOK { (microStep c tag).1 with ipc := c.ipc + 1 } ∧
+      SameConn c { (microStep c tag).1 with ipc := c.ipc + 1 } ∧ ∀ n ∈ (microStep c tag).2, Good c n := by
+  obtain ⟨cdn, dc, sdc, ipc, ready, cfg, pend⟩ := c
+  cases cdn with
+  | true =>
+    simp only [initProg, Facts.C30.connInitCDN, if_true] at ht
+    simp only [ConnOK, if_true] at h
+    rcases ipc with _ | _ | _ | ipc
+    · simp at ht; subst ht
+      simp [microStep, ConnOK, SameConn, h.1]
+    · simp at ht; subst ht
+      have := h.2 (by omega)
+      simp [microStep, ConnOK, SameConn, this]
+    · simp at ht; subst ht
+      have hcfg := h.2 (by omega)
+      refine ⟨by simp [microStep, flushConn, ConnOK, hcfg], by simp [microStep, flushConn, SameConn], ?_⟩
+      simp only [microStep, String.reduceEq, if_false, if_true]
+      exact flush_good _ (by simp [MConn.ownDC, hcfg])
+    · simp at ht
+  | false =>
+    simp only [initProg, Facts.C30.connInitRegular, Bool.false_eq_true, if_false] at ht
+    simp only [ConnOK, Bool.false_eq_true, if_false] at h
+    rcases ipc with _ | _ | _ | _ | _ | ipc
+    · simp at ht; subst ht
+      have := h.1 (by omega)
+      simp [microStep, ConnOK, SameConn, this]
+    · simp at ht; subst ht
+      have := h.1 (by omega)
+      simp [microStep, ConnOK, SameConn, this]
+    · simp at ht; subst ht
+      have := h.1 (by omega)
+      simp [microStep, ConnOK, SameConn, this]
+    · simp at ht; subst ht
+      have := h.2 (by omega)
+      simp [microStep, ConnOK, SameConn, this]
+    · simp at ht; subst ht
+      have hcfg := h.2 (by omega)
+      refine ⟨by simp [microStep, flushConn, ConnOK, hcfg], by simp [microStep, flushConn, SameConn], ?_⟩
+      simp only [microStep, String.reduceEq, if_false, if_true]
+      exact flush_good _ (by simp [MConn.ownDC, hcfg])
+    · simp at ht
+
+theorem SameConn.refl (c : MConn) : SameConn c c := ⟨rfl, rfl, rfl⟩
+
+theorem SameConn.trans {a b c : MConn} (h1 : SameConn a b) (h2 : SameConn b c) : SameConn a c :=
+  ⟨h2.1.trans h1.1, h2.2.1.trans h1.2.1, h2.2.2.trans h1.2.2⟩
+
+theorem runInit_ok (u : Bool) (fuel : Nat) : ∀ (c0 c : MConn) (out : List Notif), SameConn c0 c → ConnOK c →
+    (∀ n ∈ out, Good c0 n) →
+    ConnOK (runInit u fuel c out).1 ∧ SameConn c0 (runInit u fuel c out).1 ∧ ∀ n ∈ (runInit u fuel c out).2, Good c0 n := by
+  induction fuel with
+  | zero => intro c0 c out hs h ho; exact ⟨h, hs, ho⟩
+  | succ f ih =>
+    intro c0 c out hs h ho
+    simp only [runInit]
+    cases ht : (initProg c.cdn)[c.ipc]? with
+    | none => exact ⟨h, hs, ho⟩
+    | some tag =>
+      obtain ⟨h1, h2, h3⟩ := micro_ok c tag h ht
+      have hout : ∀ n ∈ out ++ (microStep c tag).2, Good c0 n := by
+        intro n hn
+        rw [List.mem_append] at hn
+        rcases hn with hn | hn
+        · exact ho n hn
+        · exact Good.of_same hs (h3 n hn)
+      simp only
+      split
+      · exact ⟨h1, hs.trans h2, hout⟩
+      · exact ih c0 _ _ (hs.trans h2) h1 hout
+
+theorem onConn_ok (c : MConn) (e : SessEv) (h : ConnOK c) :
+    ConnOK (onConnSession c e).1 ∧ SameConn c (onConnSession c e).1 ∧ ∀ n ∈ (onConnSession c e).2, Good c n := by
+  unfold onConnSession
+  simp only
+  split
+  · rename_i hr
+    have hcfg : c.cfg = c.ownDC := h.ready_cfg hr
+    refine ⟨by simpa [flushConn, ConnOK] using h, by simp [flushConn, SameConn], ?_⟩
+    intro n hn
+    have := flush_good { c with pending := c.pending ++ [e] } (by simpa [MConn.ownDC] using hcfg) n hn
+    exact Good.of_same (by simp [SameConn]) this
+  · exact ⟨by simpa [ConnOK] using h, by simp [SameConn], by simp⟩
+
+def AllOK (cs : List MConn) : Prop := ∀ c ∈ cs, ConnOK c
+
+def ident (c : MConn) : Bool × Int × Int := (c.cdn, c.dc, c.serverDC)
+
+theorem ident_of_same {c c' : MConn} (h : SameConn c c') : ident c' = ident c := by
+  obtain ⟨h1, h2, h3⟩ := h
+  simp [ident, h1, h2, h3]
+
+theorem map_ident_set (cs : List MConn) (id : Nat) (c c' : MConn) (hc : cs[id]? = some c) (hs : SameConn c c') :
+    (cs.set id c').map ident = cs.map ident := by
+  rw [List.map_set]
   have hlt : id < cs.length := by
     rcases Nat.lt_or_ge id cs.length with h | h
     · exact h
     · rw [List.getElem?_eq_none h] at hc; cases hc
-  simp only [mstep, hc, hcfg]
-  exact ⟨trivial, by simp [hlt]⟩
+  have : (cs.map ident)[id]? = some (ident c') := by
+    rw [List.getElem?_map, hc]; simp [ident_of_same hs]
+  apply List.ext_getElem?
+  intro j
+  rw [List.getElem?_set]
+  split
+  · rename_i hj
+    subst hj
+    simp only [List.length_map, hlt, if_true]
+    exact this.symm
+  · rfl
 
-/-- `init` delivers exactly the buffered sessions, in arrival order, with the connection's config. -/
-theorem mstep_init (cs : List MConn) (id : Nat) (c : MConn) (sd : Int) (hc : cs[id]? = some c) :
-    (mstep cs (.init id sd)).2 = c.pending.map (notifOf c (if c.cdn then c.dc else sd)) := by
-  simp [mstep, hc]
+/-- One action keeps every connection well-ordered, keeps the connections' identities, and
+delivers only notifications that pair a session with the delivering connection's own config. -/
+theorem mstep_ok (cs : List MConn) (a : MAct) (h : AllOK cs) :
+    AllOK (mstep cs a).1 ∧ (∀ n ∈ (mstep cs a).2, ∃ (id : Nat) (c : MConn), cs[id]? = some c ∧ Good c n) ∧
+      (mstep cs a).1.map ident = cs.map ident ++
+        (match a with
+          | .new cdn dc sdc => [(cdn, dc, sdc)]
+          | _ => []) := by
+  have key : ∀ (id : Nat) (c c' : MConn) (out : List Notif), cs[id]? = some c → ConnOK c' → SameConn c c' →
+      (∀ n ∈ out, Good c n) →
+      AllOK (cs.set id c') ∧ (∀ n ∈ out, ∃ (id : Nat) (c : MConn), cs[id]? = some c ∧ Good c n) ∧
+        (cs.set id c').map ident = cs.map ident ++ [] := by
+    intro id c c' out hc hok hs hg
+    refine ⟨?_, fun n hn => ⟨id, c, hc, hg n hn⟩, by simpa using map_ident_set cs id c c' hc hs⟩
+    intro x hx
+    rcases List.mem_or_eq_of_mem_set hx with hx | hx
+    · exact h x hx
+    · rw [hx]; exact hok
+  cases a with
+  | new cdn dc sdc =>
+    refine ⟨?_, by simp [mstep], by simp [mstep, ident]⟩
+    intro c hc
+    simp only [mstep, List.mem_append, List.mem_singleton] at hc
+    rcases hc with hc | hc
+    · exact h c hc
+    · subst hc; cases cdn <;> simp [ConnOK]
+  | ev id e =>
+    simp only [mstep]
+    cases hc : cs[id]? with
+    | none => exact ⟨h, by simp, by simp⟩
+    | some c =>
+      have hcm : c ∈ cs := List.mem_of_getElem? hc
+      obtain ⟨h1, h2, h3⟩ := onConn_ok c e (h c hcm)
+      exact key id c _ _ hc h1 h2 h3
+  | initBegin id =>
+    simp only [mstep]
+    cases hc : cs[id]? with
+    | none => exact ⟨h, by simp, by simp⟩
+    | some c =>
+      have hcm : c ∈ cs := List.mem_of_getElem? hc
+      obtain ⟨h1, h2, h3⟩ := runInit_ok true 8 c c [] (SameConn.refl c) (h c hcm) (by simp)
+      exact key id c _ _ hc h1 h2 h3
+  | initEnd id =>
+    simp only [mstep]
+    cases hc : cs[id]? with
+    | none => exact ⟨h, by simp, by simp⟩
+    | some c =>
+      have hcm : c ∈ cs := List.mem_of_getElem? hc
+      obtain ⟨h1, h2, h3⟩ := runInit_ok false 8 c c [] (SameConn.refl c) (h c hcm) (by simp)
+      exact key id c _ _ hc h1 h2 h3
+
+/-- Everything any action list hands to the client pairs a session with the config of a
+connection that exists or is created by the list: `ThisDC` of its own server, or the dialled DC
+for a CDN connection. -/
+theorem deliveries_ok (acts : List MAct) : ∀ (cs : List MConn), AllOK cs → ∀ n ∈ deliveries cs acts,
+    ∃ cdn dc sdc, ((cdn, dc, sdc) ∈ cs.map ident ∨ MAct.new cdn dc sdc ∈ acts) ∧
+      n.cfgDC = (if cdn then dc else sdc) ∧ n.kind = (if cdn then .cdn else .regular) ∧ n.fault = .none := by
+  induction acts with
+  | nil => intro cs _ n hn; simp [deliveries] at hn
+  | cons a rest ih =>
+    intro cs h n hn
+    obtain ⟨h1, h2, h3⟩ := mstep_ok cs a h
+    simp only [deliveries, List.mem_append] at hn
+    rcases hn with hn | hn
+    · obtain ⟨id, c, hc, hg⟩ := h2 n hn
+      refine ⟨c.cdn, c.dc, c.serverDC, Or.inl ?_, ?_, hg.2.1, hg.2.2.1⟩
+      · exact List.mem_map.2 ⟨c, List.mem_of_getElem? hc, rfl⟩
+      · simpa [MConn.ownDC] using hg.1
+    · obtain ⟨cdn, dc, sdc, hmem, hrest⟩ := ih _ h1 n hn
+      refine ⟨cdn, dc, sdc, ?_, hrest⟩
+      rcases hmem with hmem | hmem
+      · rw [h3, List.mem_append] at hmem
+        rcases hmem with hmem | hmem
+        · exact Or.inl hmem
+        · cases a with
+          | new c d s => simp at hmem; rw [hmem.1, hmem.2.1, hmem.2.2]; exact Or.inr List.mem_cons_self
+          | ev _ _ => simp at hmem
+          | initBegin _ => simp at hmem
+          | initEnd _ => simp at hmem
+      · exact Or.inr (List.mem_cons_of_mem _ hmem)
 
 end TdModel.C30
